@@ -111,3 +111,8 @@ pub assume_specification[ String::len ](s: &String) -> (r: usize)
 // TRUSTED(T3): Chars::last is Some exactly when characters remain
 pub assume_specification<'a>[ <core::str::Chars<'a> as Iterator>::last ](c: core::str::Chars<'a>) -> (r: Option<char>)
     ensures (r is Some) == (vstd::std_specs::iter::IteratorSpec::remaining(&c).len() > 0);
+
+// TRUSTED(T3): char::is_alphabetic is a total function
+pub uninterp spec fn char_is_alphabetic(c: char) -> bool;
+pub assume_specification[ char::is_alphabetic ](c: char) -> (r: bool)
+    ensures r == char_is_alphabetic(c);
